@@ -9,9 +9,13 @@ CONSTANTS
   LastItemRunsToEnd = TRUE
   TxSectionEndsAtReceipts = FALSE
   HashIndexExact = TRUE
+  RevertDropsIndexes = TRUE
+  MaxReverts = 0
+  MemoFamilies = {}
+  MemoPurged = TRUE
 INIT Init
 NEXT NextR
 VIEW view
-PROPERTIES RestartIsNoOp
-INVARIANTS ItemAccessors OutOfRange BlockAccessors ProjectionsAgree Layout
+PROPERTIES RestartIsNoOp ReadIsNoOp
+INVARIANTS ItemAccessors OutOfRange BlockAccessors ProjectionsAgree Layout Gone IndexesExact
 CHECK_DEADLOCK FALSE
